@@ -100,7 +100,7 @@ class Build:
             os.makedirs(pout, exist_ok=True)
             def launch(pid):
                 return subprocess.Popen(
-                    'timeout 900 coqc -Q theories LS -Q gen LSGen -Q props LSProps props/%s.v > %s 2>&1' % (pid, os.path.join(pout, pid + '.out')),
+                    'timeout 900 coqc -Q theories LS -Q gen LSGen -Q props LSProps -Q theories/conc LSConc props/%s.v > %s 2>&1' % (pid, os.path.join(pout, pid + '.out')),
                     shell=True, cwd=coq)
             def collect(pid, p):
                 rcp = p.wait()
@@ -433,7 +433,16 @@ def explore(root, pid, res, case_text, label, stats):
         if cid in cases and cid not in opcache:
             opcache[cid] = case_ops(cases[cid])
         ops_c = opcache.get(cid, [])
-        props = list(props) + extra_props(ops_c[step] if step < len(ops_c) else None, name)
+        op_c = ops_c[step] if step < len(ops_c) else None
+        props = list(props) + extra_props(op_c, name)
+        # a wrong value / unexpected panic on a step whose target was a borrowed static also speaks for C10
+        if op_c is not None and name in ('text_mismatch', 'panic_other', 'utf8_invalid', 'ret_mismatch', 'out_of_bounds', 'process_abort'):
+            tg = op_target(op_c)
+            prev = isteps.get((cid, step - 1))
+            if tg is not None and prev is not None:
+                ps = parse_slots(prev[2])
+                if tg < len(ps) and ps[tg] is not None and ps[tg]['kind'] == 'S':
+                    props.append('C10')
         if pid == 'C20' and any(x in props for x in ('C01', 'C02', 'C03')):
             props.append('C20')
         if pid in props and cid not in seen:
